@@ -6,7 +6,7 @@
    invariant is really violated at the end.  With Weaken = "none" the same guide must NOT reach a violation
    (checked by the generator), which shows that the removed guard is what the attack needs.                     *)
 EXTENDS QBFT
-CONSTANT Guide          \* sequence of [name |-> STRING, to |-> 0..N]  (to = 0: any receiver)
+CONSTANT Guide          \* sequence of [name |-> STRING, to |-> 0..N, from |-> 0..N]  (0 = any)
 VARIABLE pc
 gvars == <<st, sent, byzUsed, act, pc>>
 
@@ -14,7 +14,8 @@ GInit == Init /\ pc = 1
 GNext == /\ pc <= Len(Guide)
          /\ Next
          /\ act'.name = Guide[pc].name
-         /\ (Guide[pc].to = 0 \/ act'.to = Guide[pc].to)
+         /\ IF Guide[pc].to = 0 THEN TRUE ELSE act'.to = Guide[pc].to
+         /\ IF Guide[pc].from = 0 THEN TRUE ELSE act'.from = Guide[pc].from
          /\ pc' = pc + 1
 GSpec == GInit /\ [][GNext]_gvars
 GuideCompleted == pc = Len(Guide) + 1
